@@ -50,9 +50,9 @@ func ToV1(v val.V) *dynamodb.AttributeValue {
 		}
 		return &dynamodb.AttributeValue{M: m}
 	case "SS":
-		return &dynamodb.AttributeValue{SS: aws.StringSlice(v.SS)}
+		return &dynamodb.AttributeValue{SS: freshStrings(v.SS)}
 	case "NS":
-		return &dynamodb.AttributeValue{NS: aws.StringSlice(v.SS)}
+		return &dynamodb.AttributeValue{NS: freshStrings(v.SS)}
 	case "BS":
 		bs := make([][]byte, len(v.BS))
 		for i, b := range v.BS {
@@ -61,6 +61,16 @@ func ToV1(v val.V) *dynamodb.AttributeValue {
 		return &dynamodb.AttributeValue{BS: bs}
 	}
 	panic("bad val type " + v.T)
+}
+
+// freshStrings returns pointers to fresh copies (aws.StringSlice points into its argument).
+func freshStrings(ss []string) []*string {
+	o := make([]*string, len(ss))
+	for i := range ss {
+		s := ss[i]
+		o[i] = &s
+	}
+	return o
 }
 
 // ItemToV1 converts an item (nil stays nil).
